@@ -20,7 +20,7 @@ def models(tier):
     ms = []
     ml = 4 if tier == "thorough" else 3
     for n, (u, c, t, f, letters) in enumerate(_optsets()):
-        if tier == "cross" and letters not in ("-", "uc", "tf", "uctf", "ct"):
+        if tier == "cross" and letters not in ("-", "uctf", "ct"):
             continue
         consts = dict(MaxLen=ml, Vals={1, 2}, Uniq=u, Ci=c, Top=t, Fwd=f)
         tc = dict(consts, MaxLen=1000000, Vals={1, 2, 3, 4})
